@@ -200,3 +200,56 @@ func VH_C14_wildcard() {
 	}
 	v.Cover("done")
 }
+
+// VH_C14_wildcard2: a wildcard in a middle component ("t/*/*") brings entries with the same base
+// name from different directories to the same destination path, one replacing the other, together
+// with further names of their inodes: a regular file a/f, an entry b/f (file or symlink pointing
+// outside) that replaces it at <dst>/f, and c/g, a hard link of a/f, which the copier re-creates as
+// a link to whatever it wrote for a/f. Nothing outside the destination root may change.
+func VH_C14_wildcard2() {
+	m.Reset()
+	out, src, dst := m.Root("out"), m.Root("src"), m.Root("dst")
+	m.MkFile(out+"/secret", []byte("s"), 0600, 1, 1, 5)
+	m.MkDir(out+"/sub", 0700, 1, 1, 5)
+	m.SetMtime(out, 5)
+	m.MkDir(src+"/t", 0755, 2, 2, 7)
+	for _, d := range []string{"a", "b", "c"} {
+		m.MkDir(src+"/t/"+d, 0755, 2, 2, 7)
+	}
+	m.MkFile(src+"/t/a/f", []byte("af"), 0644|(v.U32("special")&07000), 2, 2, 7)
+	targets := []string{"../out/secret", out + "/secret", "../out/sub", "nowhere"}
+	switch v.Choose("kind-b/f", 3) {
+	case 1:
+		m.MkFile(src+"/t/b/f", []byte("bf"), 0644, 2, 2, 7)
+	case 2:
+		m.MkSymlink(src+"/t/b/f", targets[v.Choose("target", len(targets))], 2, 2, 7)
+		v.Cover("replaced-by-symlink")
+	}
+	if v.Bool("c/g-links-a/f") {
+		m.MkLink(src+"/t/a/f", src+"/t/c/g")
+		v.Cover("hardlink")
+	} else {
+		m.MkFile(src+"/t/c/g", []byte("cg"), 0644, 2, 2, 7)
+	}
+	if v.Bool("dst-o-exists") {
+		m.MkDir(dst+"/o", 0700, 3, 3, 7)
+	}
+	allBefore := m.SnapshotAll()
+	m.ClearOps()
+	ci := CopyInfo{AllowWildcards: true, AlwaysReplaceExistingDestPaths: v.Bool("always-replace")}
+	err := Copy(context.Background(), src, "t/*/*", dst, "o/", WithCopyInfo(ci))
+	v.Observe("failed", err != nil)
+	var before, after []m.Entry
+	for _, e := range allBefore {
+		if e.Path != "dst" && !vh_isUnder(e.Path, "dst") {
+			before = append(before, e)
+		}
+	}
+	for _, e := range m.SnapshotAll() {
+		if e.Path != "dst" && !vh_isUnder(e.Path, "dst") {
+			after = append(after, e)
+		}
+	}
+	v.Assert(vh_snapEqual(before, after), "a wildcard copy with colliding names creates, changes or removes nothing outside the destination root")
+	v.Cover("done")
+}
